@@ -4,7 +4,7 @@
 # usage: seed_matrix.sh [ids...]
 cd /verif
 ids="$@"; [ -z "$ids" ] && ids=$(ls seeded | grep '^C[0-9]*_' | sort)
-cp bin/symgo /tmp/symgo_matrix
+BIN=/tmp/symgo_matrix_$$; cp bin/symgo $BIN
 out=/verif/seeded/MATRIX.md
 [ -f $out ] || echo "| mutation | property check | detected | fingerprints / notes |" > $out
 for id in $ids; do
@@ -13,7 +13,7 @@ for id in $ids; do
   wt=/tmp/mutwt_$id; rm -rf $wt; git -C /repo worktree prune
   git -C /repo worktree add -q --detach $wt HEAD || continue
   (cd $wt && git apply /verif/seeded/$id/patch.diff) || { echo "| $id | $prop | patch does not apply | |" >> $out; git -C /repo worktree remove --force $wt; continue; }
-  res=$(SYMGO_REPO=$wt SYMGO_REPLAYS=/tmp/mutreplays/$id SYMGO_EVIDENCE=/tmp/mutev timeout 1500 /tmp/symgo_matrix check --prop $prop --tier quick --jobs ${MATRIX_JOBS:-8} 2>&1)
+  res=$(SYMGO_REPO=$wt SYMGO_REPLAYS=/tmp/mutreplays/$id SYMGO_EVIDENCE=/tmp/mutev timeout 1500 $BIN check --prop $prop --tier quick --jobs ${MATRIX_JOBS:-8} 2>&1)
   code=$?
   fps=$(echo "$res" | grep "fingerprint=" | sed 's/.*fingerprint=//' | awk '{print $1}' | sort -u | paste -sd' ')
   nd=$(echo "$res" | grep -c "NOT-DECIDED")
